@@ -30,6 +30,9 @@ func (x *Exec) unop(instr *ssa.UnOp, v value) value {
 		}
 		return x.tb.Neg(t)
 	case token.MUL:
+		if sp, isSym := v.(symPtr); isSym {
+			return x.selectValue(sp.elems, sp.idx)
+		}
 		p, ok := v.(*value)
 		if !ok {
 			panic(unsupported{fmt.Sprintf("deref of %T", v)})
@@ -313,7 +316,19 @@ func (x *Exec) concInt(v value, what string) int64 {
 }
 
 // boundedIndex checks 0 <= idx < n (panicking on the out-of-range fork) and concretises.
+func (x *Exec) widenIdx(idx *Term, it types.Type) *Term {
+	if idx.sort.W >= 64 {
+		return idx
+	}
+	if isSigned(it) {
+		return x.tb.Sext(idx, 64)
+	}
+	return x.tb.Zext(idx, 64)
+}
+
 func (x *Exec) boundedIndex(idx *Term, n int, it types.Type) int {
+	idx = x.widenIdx(idx, it)
+	it = types.Typ[types.Int]
 	if idx.op == OConst {
 		var i int64
 		if isSigned(it) {
@@ -371,6 +386,8 @@ func (x *Exec) selectTerm(elems []*Term, idx *Term) *Term {
 }
 
 func (x *Exec) indexString(s strVal, idx *Term, it types.Type) value {
+	idx = x.widenIdx(idx, it)
+	it = types.Typ[types.Int]
 	n := s.Len()
 	if idx.op == OConst {
 		i := x.boundedIndex(idx, n, it)
@@ -387,6 +404,8 @@ func (x *Exec) indexString(s strVal, idx *Term, it types.Type) value {
 }
 
 func (x *Exec) indexValues(elems []value, idx *Term, it types.Type) value {
+	idx = x.widenIdx(idx, it)
+	it = types.Typ[types.Int]
 	n := len(elems)
 	if idx.op == OConst {
 		return copyVal(elems[x.boundedIndex(idx, n, it)])
